@@ -85,6 +85,17 @@ CHECKS = {
              "Results returned to a caller whose mutation was drained by another goroutine are not trusted by the model (ground truth from the tracer).",
         technique="runtime monitor: schedule-point gates/yields, boundary history + recording tracer, exactly-once/ordering checkers, porcupine linearizability, goroutine-dump stable-block classifier",
         engine="concmach", design_ref="5/C04"),
+    "C06": dict(
+        level="exploration",
+        text="Sequential: generated scripts of 25-60 steps mix subscriptions of every kind (When, WhenNot, WhenTime, WhenTicks, WhenNextActive, WhenQuery, WhenArgs, NewStateCtx; "
+             "with and without a cancelable ctx) with mutations, ctx cancelations, schema growth via SetSchema and a final Dispose; after every step every subscription is swept "
+             "against the tick chain recorded by a tracer by independent condition code: mustClose (condition held at subscription / at the end of a later transition, ctx ended and an "
+             "accepted transition ran, disposed), mustOpen, or either. Race: a subscriber is placed by gates before apply (negotiation handler parked), at tx.applied, at pq.before-subs "
+             "and after the transition for every kind incl. NewStateCtx, and WhenQueueEnds is parked at wqe.checked while the queue ends. Directed witnesses of nine repaired defects run on every check.",
+        note="Sequential subscriptions are made at quiescence (exact chain index). Nothing is asserted to stay open once its ctx ended; WhenArgs ctx expiry needs a state-changing transition. "
+             "WhenQueue is monitored by C04.",
+        technique="runtime monitor: subscription table swept against a tracer-recorded tick chain; gate-placed subscriptions at verif schedule points",
+        engine="concmach", design_ref="5/C06"),
     "C11": dict(
         level="exploration",
         text="Each generated (schema rich in Auto/mutual-Remove/Add-fan/independent-Require structure, static veto table, history) case is executed on 64 fresh "
